@@ -503,3 +503,33 @@ def _union(a, b):
     if isinstance(a, frozenset) and isinstance(b, frozenset):
         return a | b
     return ("union", a, b)
+
+
+def foreign_column_reads(builder, frames, assign_call):
+    """For `recv.assign(k=lambda x: ...)`: column reads inside the lambdas from frames other than the receiver.  pandas
+    combines those with the receiver's columns by index label, i.e. *positionally* when both carry a fresh range index, so
+    the two frames must list the same groups in the same order.  -> [(kw name, foreign frame term)]"""
+    PH = ir.I(("param", "#assign-receiver"))
+    out = []
+    for k, v in assign_call[3]:
+        if k is None or v[0] != "lambda":
+            continue
+        body = builder.lambda_apply(v, [PH])
+        seen = set()
+
+        def rec(y):
+            if y in seen or not isinstance(y, tuple):
+                return
+            seen.add(y)
+            is_col = (y[0] == "sub" and y[2][0] in ("const", "fstr") and not (y[2][0] == "const" and not isinstance(y[2][1], str))) or \
+                (y[0] == "attr" and y[2] not in ("values", "loc", "iloc", "shape", "columns", "index", "T"))
+            if is_col and y[1] != PH and frames.is_frame(y[1]) and not any(z == PH for z in ir.walk(y[1])) \
+                    and not (y[1][0] == "param" and y[1][1] == "self"):
+                if (k, y[1]) not in out:
+                    out.append((k, y[1]))
+                return  # a column of a foreign frame: do not look inside the frame expression
+            for ch in ir.children(y):
+                rec(ch)
+
+        rec(body)
+    return out
